@@ -194,4 +194,56 @@ void svt_remove_mem_entry(void* ptr, EbPtrType type);
 
 #define EB_FREE_ALIGNED_ARRAY(pa) EB_FREE_ALIGNED(pa)
 
+#ifdef SVT_AV1_VERIF
+/* verification hook (property C16): fail the k-th allocation / OS-object creation made through the
+ * allocation macros.  svt_verif_fail_here() counts one site; it returns 1 exactly when the running
+ * count equals svt_verif_fail_at (0 = never).  The macros below are the originals with the primitive
+ * call replaced by `svt_verif_fail_here(__FILE__, __LINE__) ? <failure value> : <primitive call>`. */
+#ifdef __cplusplus
+extern "C" {
+#endif
+extern volatile long svt_verif_fail_at;
+extern volatile long svt_verif_alloc_count;
+extern volatile long svt_verif_fired;
+extern const char*   svt_verif_fail_file;
+extern int           svt_verif_fail_line;
+extern void (*svt_verif_site_hook)(const char* file, int line, long count);
+int svt_verif_fail_here(const char* file, int line);
+#ifdef __cplusplus
+}
+#endif
+#undef EB_NO_THROW_MALLOC
+#define EB_NO_THROW_MALLOC(pointer, size)                                                       \
+    do {                                                                                        \
+        void* malloced_p = svt_verif_fail_here(__FILE__, __LINE__) ? NULL : malloc(size);       \
+        EB_NO_THROW_ADD_MEM(malloced_p, size, EB_N_PTR);                                        \
+        pointer = malloced_p;                                                                   \
+    } while (0)
+#undef EB_NO_THROW_CALLOC
+#define EB_NO_THROW_CALLOC(pointer, count, size)                                                \
+    do {                                                                                        \
+        pointer = svt_verif_fail_here(__FILE__, __LINE__) ? NULL : calloc(count, size);         \
+        EB_NO_THROW_ADD_MEM(pointer, count* size, EB_C_PTR);                                    \
+    } while (0)
+#undef EB_REALLOC_ARRAY
+#define EB_REALLOC_ARRAY(pa, count)                                                             \
+    do {                                                                                        \
+        size_t size = sizeof(*(pa)) * (count);                                                  \
+        void*  p    = svt_verif_fail_here(__FILE__, __LINE__) ? NULL : realloc(pa, size);       \
+        if (p) {                                                                                \
+            EB_REMOVE_MEM_ENTRY(pa, EB_N_PTR);                                                  \
+        }                                                                                       \
+        EB_ADD_MEM(p, size, EB_N_PTR);                                                          \
+        pa = p;                                                                                 \
+    } while (0)
+#ifndef _WIN32
+#undef EB_MALLOC_ALIGNED
+#define EB_MALLOC_ALIGNED(pointer, size)                                                        \
+    do {                                                                                        \
+        if (svt_verif_fail_here(__FILE__, __LINE__) ? 1 : posix_memalign((void**)&(pointer), ALVALUE, size) != 0) \
+            return EB_ErrorInsufficientResources;                                               \
+        EB_ADD_MEM(pointer, size, EB_A_PTR);                                                    \
+    } while (0)
+#endif
+#endif /* SVT_AV1_VERIF */
 #endif //EbMalloc_h
